@@ -337,7 +337,24 @@ def gen_cls(rng):
     X = [[float(rng.randint(-2, 2)) for _ in range(ni)] for _ in range(rng.randint(1, 5))]
     return Case(spec, params, X, None, "cls")
 
-GENS = [(gen_lin, 7), (gen_net, 5), (gen_neu, 2), (gen_nrm, 1), (gen_conv, 4), (gen_conv_edge, 4), (gen_pool, 2), (gen_pool_ties, 3), (gen_resize, 2), (gen_resize_edge, 2), (gen_rbf, 2), (gen_cmac, 2),
+def gen_row_scales(rng):
+    """rows of very different magnitude inside ONE batch (row-wise activations: softmax, normaliser): a row must not see its batch
+    companions - e.g. a softmax that stabilises with the maximum of the whole batch underflows the rows far below it"""
+    a = rng.choice([5, 5, 5, 6, 2, 3])
+    n = rng.choice([2, 3, 5])
+    if rng.random() < 0.5: spec = "NEU %d %d" % (a, n)
+    else: spec = "LIN %d %d %d %d" % (a, rng.randint(0, 1), n, rng.choice([2, 3]))
+    c = mk(rng, spec, positive=(a == 6), B=rng.choice([2, 3, 4]), tag="rowscale")
+    big = rng.choice([300.0, 400.0, 380.0, 90.0])          # |pre-activation| stays below ~410: exp() neither overflows nor underflows on its own
+    for r, row in enumerate(c.X):
+        sh = [big, -big, 0.0, big / 2][r % 4] if a != 6 else [big, 1.0, 0.5, big / 2][r % 4]
+        c.X[r] = [(v + sh) if a != 6 else (v * sh) for v in row]
+    if spec.startswith("LIN") and a != 6:        # weights that keep the scale gap (identity-like, small integers)
+        an, _ = analyse(spec.split())
+        c.params = [1.0 if (i % (an.nin + 1) == 0) else 0.0 for i in range(an.np)]
+    return c
+
+GENS = [(gen_row_scales, 2), (gen_lin, 7), (gen_net, 5), (gen_neu, 2), (gen_nrm, 1), (gen_conv, 4), (gen_conv_edge, 4), (gen_pool, 2), (gen_pool_ties, 3), (gen_resize, 2), (gen_resize_edge, 2), (gen_rbf, 2), (gen_cmac, 2),
         (gen_kexp, 2), (gen_ens, 2), (gen_netx, 5), (gen_cls, 3)]
 
 def gen_cases(rng, n):
